@@ -303,7 +303,7 @@ func driveC14(g *sim.G, exec func(*sim.Op) *Viol) *Viol {
 var C14 = register(&HistProp{ID: "C14",
 	Genesis: func(t *rapid.T) *sim.GenSpec {
 		// a pre-funded module account lets a swallowed transfer failure go on to a successful burn
-		return sim.DrawGenesis(t, sim.GenOpts{BigBalances: true, PrefundMod: rapid.IntRange(0, 2).Draw(t, "prefund") == 0})
+		return sim.DrawGenesis(t, sim.GenOpts{BigBalances: true, OddMessenger: true, PrefundMod: rapid.IntRange(0, 2).Draw(t, "prefund") == 0})
 	},
 	Drive: driveC14, MaxOps: 1,
 	New:     func() Checker { return &c14{} },
